@@ -9,7 +9,11 @@ C11 — how a record is presented does not change the arrays.
   presentations with the same `interpDT` (struct / map / tuple, any field order, extra fields, `Some`/newtype
   layers, integer widths …) leave the builder with the same logical rows.
 * `record_as_map`: a struct presentation and the map presentation with the same keys have the same `interpDT`.
+* `record_as_tuple`: a tuple in schema order means what the struct presentation with the schema's names means.
 * `record_perm`: permuting the fields of a struct presentation does not change `interpDT` (on the ok side).
+* `absent_nullable_is_null`, `absent_required_is_error`, `duplicate_is_error`.
+* `Item` / `Items` (Build/Wrappers.lean): `item_is_record`, `items_is_seq_of_records`, `item_interp_record`, `item_row`.
+* the statements about the ARRAYS (`C11_presentations`, …) are in Props/C11Arrays.lean.
 * `extra_field_ignored`: a field no schema field is named after is ignored.
 * the positional fast path of `FieldLookup::lookup` is sound for every cache state: `C11Front.lookup_sound`
   (used by the R1/R2 proofs for `serialize_struct_field`), so interleaving differently laid-out record types
